@@ -194,6 +194,12 @@ def c17_quick_models():
     s3_ = trait("StoreExt", [meth("ext_len", "ref", [], "u64")])
     out.append(("names:nested", model([s1, s2, s3_], [{"name": "Bundle", "mandatory": ["Store"], "optional": ["KeyStore", "StoreExt"]}],
                                       [obj("Store"), obj("KeyStore"), obj("StoreExt"), grp("Bundle")])))
+    # F7b names that themselves end in a word the generated type names are built from
+    for gname in ("KitContainer", "KitContainerContainer", "VtblKit"):
+        out.append(("names:group:%s" % gname, model(tr[:2], [{"name": gname, "mandatory": ["Alpha"], "optional": ["Beta"]}], [grp(gname), obj("Alpha")])))
+    for tname in ("StoreVtbl", "StoreContainer", "CGlueStore"):
+        tt = trait(tname, [meth("store_put", "mut", ["u64"], "void"), meth("store_take", "own", [], "u64")])
+        out.append(("names:trait:%s" % tname, model([tt, tr[0]], [{"name": "Bundle", "mandatory": ["Alpha"], "optional": [tname]}], [obj(tname), grp("Bundle")])))
     # F8 Self-returning entry (clone) as object and inside a group
     cl = [meth("alpha_get", "ref", ["u64"], "u64"), meth("alpha_dup", "ref", [], "self")]
     for form in ("obj", "gmand", "gopt"):
